@@ -1,9 +1,10 @@
 #!/bin/bash
 # seedmatrix.sh [names...]: for every seeded change (default: all under /verif/seeded) apply it to /repo, run all checks in
 # parallel against a scratch root, undo it, and print "name: caught by ...". Output also written to /verif/seeded/MATRIX.txt.
+export VBIN=$(mktemp /tmp/verifsa-frozen.XXXX); cp /verif/bin/verifsa $VBIN; chmod +x $VBIN; trap 'rm -f $VBIN' EXIT  # a frozen copy: the binary may be rebuilt while this runs
 export GOFLAGS=-mod=mod GOPROXY=off GOSUMDB=off GOTOOLCHAIN=local; unset GOWORK
 names=${@:-$(ls /verif/seeded | grep -v MATRIX)}
-ids=$(/verif/bin/verifsa list | cut -d' ' -f1)
+ids=$($VBIN list | cut -d' ' -f1)
 out=/verif/seeded/MATRIX.txt
 [ $# -eq 0 ] && : > $out
 for name in $names; do
@@ -12,7 +13,7 @@ for name in $names; do
   [ -z "$(git -C /repo status --porcelain)" ] || { echo "/repo is dirty"; exit 2; }
   git -C /repo apply $p || { echo "$name: patch does not apply"; continue; }
   root=/tmp/verif-seedrun; mkdir -p $root; cp /verif/known_findings.json $root/
-  hit=$(echo $ids | tr ' ' '\n' | xargs -P 10 -I{} sh -c '/verif/bin/verifsa check {} -root '$root' 2>&1 | grep -q "^VIOLATION" && echo {}' | sort | tr '\n' ' ')
+  hit=$(echo $ids | tr ' ' '\n' | xargs -P 10 -I{} sh -c '$VBIN check {} -root '$root' 2>&1 | grep -q "^VIOLATION" && echo {}' | sort | tr '\n' ' ')
   git -C /repo checkout -- . ; git -C /repo clean -fdq
   line="$name: ${hit:-NONE}"
   echo "$line"; [ $# -eq 0 ] && echo "$line" >> $out
